@@ -95,11 +95,21 @@ def gen_multiset(rng):
         k = int(rng.choice([1, 2, 3, 9]))
         rate = round(float(rng.choice([0.0, 0.01, 0.02, 0.05, 0.1, 0.15,
                                        0.2, 0.3, 1.0])), 4)
-        bias = str(rng.choice(['depol', 'z']))
+        # 'z1e7' / 'z1e8' / 'zinf': neighbouring points of a bias sweep whose
+        # parameters differ only beyond the sixth decimal (round 7)
+        bias = str(rng.choice(['depol', 'z', 'z1e7', 'z1e8', 'zinf']))
+        eta = {'z1e7': 1e7, 'z1e8': 1e8}.get(bias)
         em = {'name': 'PauliErrorModel', 'parameters': (
             {'r_x': 1 / 3, 'r_y': 1 / 3, 'r_z': 1 / 3,
              'deformation_name': None, 'deformation_kwargs': {}}
             if bias == 'depol' else
+            {'r_x': 0.0, 'r_y': 0.0, 'r_z': 1.0, 'deformation_name': None,
+             'deformation_kwargs': {}}
+            if bias == 'zinf' else
+            {'r_x': 1 / (2 * (eta + 1)), 'r_y': 1 / (2 * (eta + 1)),
+             'r_z': eta / (eta + 1), 'deformation_name': None,
+             'deformation_kwargs': {}}
+            if eta else
             {'r_x': 0.05, 'r_y': 0.05, 'r_z': 0.9, 'deformation_name': None,
              'deformation_kwargs': {}})}
         dec = {'name': 'BeliefPropagationOSDDecoder', 'parameters': {
@@ -107,6 +117,9 @@ def gen_multiset(rng):
             'bp_method': 'minimum_sum'}}
         L = int(rng.choice([3, 4, 8, 12])) if k != 9 else \
             int(rng.choice([2, 4, 12]))
+        if bias.startswith('z1e') or bias == 'zinf':
+            # keep the neighbours at one point so that they can collide
+            rate, L = 0.1, (4 if k != 9 else 2)
         ident = (k, rate, bias, L)
         if ident in seen:
             continue
